@@ -6,7 +6,7 @@ import Geo.Basic
 namespace Geo
 
 /-- what the diagram code reads of a `Tensor`: Python object identity, array shape,
-    covariant / contravariant axes (ascending, as `list(set)` yields them for small ints);
+    covariant / contravariant axes (ascending: `add_node` sorts them);
     the remaining leading axes are the free (collection) axes. -/
 structure Node where
   id : Nat
